@@ -36,8 +36,8 @@ package io
 //
 //@ func NewStringScanner
 //@   ensures[C11] fresh(result) && scanInv(result) && result.position == -1
-//@   ensures[C11] len(result.content) == rlen(content)
-//@   ensures[C11] forall i int :: 0 <= i && i < rlen(content) ==> result.content[i] == content[i]
+//@   ensures[C11,C04,C12] len(result.content) == rlen(content)
+//@   ensures[C11,C04,C12] forall i int :: 0 <= i && i < rlen(content) ==> result.content[i] == content[i]
 //@   ensures[C11] forall i int :: 0 <= i && i < len(result.content) ==> scalar(result.content[i])
 //@   assigns nothing
 //@   nopanic
